@@ -276,7 +276,7 @@ class _Info:
         self.unobserved = set(self.id_of) - self.observed
 
 
-def ask(info, k, batch, scores_by_name, col, policy=None):
+def ask(info, k, batch, scores_by_name, col, policy=None, placeholder=False):
     """One real select_next_plate call.  Returns (allowed names | None if the policy was
     not consulted, returned plate name | None).  Exceptions propagate.  `policy`: a
     long-lived policy object to use instead of a fresh one."""
@@ -297,7 +297,9 @@ def ask(info, k, batch, scores_by_name, col, policy=None):
         scores=holder,
         screen=info.screen,
         policy=rec,
-        batch_plate_ids=[info.id_of[n] for n in batch],
+        # placeholder: the select_next_plate command records -1 when a slot found no eligible plate, and the orchestration
+        # script hands every recorded selection of the batch (that -1 included) to the next slot
+        batch_plate_ids=[info.id_of[n] for n in batch] + ([-1] if placeholder else []),
         rng=np.random.default_rng(0),
     )
     allowed = [_name_of(p) for p in rec.returned[-1]] if rec.returned else None
@@ -505,6 +507,24 @@ def expand(ctx, state, col):
                 raise
             col.violation("C16|raised|reused-policy-object", f"k={k}: a policy object asked at the start of the simulation and again here raised: {short_exc(exc)}",
                           _case(ctx, state, {"two_call_history": True}))
+
+    # a slot that finds nothing eligible is recorded as -1 and the batch goes on: the next slot, handed that placeholder among the
+    # batch ids, sees the same batch and the same remaining plates and therefore still has nothing eligible
+    if not legit and remaining:
+        note_p = {"target": None, "placeholder_in_batch_ids": True}
+        try:
+            allowed_p, got_p = ask(info, k, batch, scores, col, placeholder=True)
+            col.count("calls with the -1 placeholder of an empty slot among the batch ids")
+            allowed_p = ([] if got_p is None else [got_p]) if allowed_p is None else allowed_p
+            judge_allowed(ctx, info, state, allowed_p, col, note_p)
+            if got_p is not None and got_p not in allowed_p:
+                col.violation("C16|select|returned-plate-not-allowed", f"k={k}: select_next_plate returned {got_p} for batch {list(batch)} + placeholder -1, "
+                                                                       f"the policy allowed {allowed_p}", _case(ctx, state, note_p))
+        except Exception as exc:  # noqa: BLE001
+            if not exception_origin_in_repo(exc):
+                raise
+            col.violation("C16|raised|placeholder-in-batch", f"k={k}: select_next_plate raised with the placeholder -1 among the batch ids: {short_exc(exc)}",
+                          _case(ctx, state, note_p))
 
     first_target = min(legit, key=lambda n: scores[n]) if legit else None
     if not legit:
